@@ -123,8 +123,8 @@ type metaWorld struct {
 	ol *world.OrderedLoader
 }
 
-func newMetaWorld(storage string) *metaWorld {
-	w := &metaWorld{s: world.MustServer(world.ServerCfg{Backend: storage})}
+func newMetaWorld(storage string, wrap ...bool) *metaWorld {
+	w := &metaWorld{s: world.MustServer(world.ServerCfg{Backend: storage, StorageWrap: len(wrap) > 0 && wrap[0]})}
 	for _, np := range []**world.Node{&w.A, &w.B} {
 		er, err := world.Enroll(w.s, world.FlowAuthorize, false, nil, nil, nil)
 		if err != nil {
@@ -415,7 +415,7 @@ func runMeta(c *engine.Ctx) engine.Result {
 			n++
 			go func(sto string, list []metaCase, p int) {
 				defer func() { done <- struct{}{} }()
-				w := newMetaWorld(sto)
+				w := newMetaWorld(sto, p%2 == 1)
 				defer w.close()
 				for i := p; i < len(list); i += workers {
 					w.run(c, list[i])
